@@ -19,7 +19,7 @@ META = dict(
         "qucumber/utils/__init__.py: auto_unsqueeze_args",
     ],
     bounds=dict(
-        quick="positive and complex states, (num_visible, num_hidden) in {(1,1),(1,2),(2,1),(2,2),(2,3),(3,2),(3,3)}, all 2^n basis states, batched and 1-D call forms",
+        quick="positive and complex states, (num_visible, num_hidden) in {(1,1),(1,2),(2,1),(2,2),(2,3),(3,2),(3,3)}, all 2^n basis states, batched and 1-D call forms; real-torch float runs at 2 parameter points of magnitude <= 10 per job",
         thorough="positive and complex states, num_visible 1..5 x num_hidden 1..6 (30 architectures), all 2^n basis states, batched and 1-D call forms",
     ),
     outside=["floating-point rounding / overflow (claim is over the reals)", "num_visible > 5, num_hidden > 6", "GPU / device moves"],
